@@ -269,3 +269,95 @@ Proof.
   induction ops as [|o ops IH] using rev_ind; [exact inv_init|].
   rewrite exec_snoc. now apply inv_step.
 Qed.
+
+(** * Part 3: every delivery of every program is accepted by the property acceptors *)
+
+Lemma count_name_app n a b : count_name n (a ++ b) = count_name n a + count_name n b.
+Proof. unfold count_name. now rewrite filter_app, app_length. Qed.
+
+Definition one_copy (d : delivery) (hs : hstate) : list (N * list ev) :=
+  match hs_started hs with
+  | Some s => if receives d hs then [(hname hs, dispatch (hs_cfg hs) s d)] else []
+  | None => [] end.
+
+Lemma deliver_flat st d : deliver st d = flat_map (one_copy d) (handlers st).
+Proof. reflexivity. Qed.
+
+Lemma one_copy_other n d hs : N.eqb (hname hs) n = false -> count_name n (one_copy d hs) = 0.
+Proof.
+  intros H. unfold one_copy. destruct (hs_started hs); [|reflexivity].
+  destruct (receives d hs); [|reflexivity]. unfold count_name. simpl. now rewrite H.
+Qed.
+
+Lemma count_not_in n d l : ~ In n (map hname l) -> count_name n (flat_map (one_copy d) l) = 0.
+Proof.
+  induction l as [|a l IH]; simpl; [reflexivity|]. intros H. rewrite count_name_app, IH by tauto.
+  rewrite one_copy_other; [reflexivity|]. apply N.eqb_neq. tauto.
+Qed.
+
+Lemma count_deliver n d l : NoDup (map hname l) ->
+  count_name n (flat_map (one_copy d) l) =
+  match find (name_is n) l with Some hs => length (one_copy d hs) | None => 0 end.
+Proof.
+  induction l as [|a l IH]; simpl; [reflexivity|]. intros Hn. inversion Hn as [|? ? Ha Hl]; subst.
+  rewrite count_name_app. unfold name_is at 1. fold (hname a).
+  destruct (N.eqb (hname a) n) eqn:E.
+  - apply N.eqb_eq in E. subst n. rewrite count_not_in by assumption. rewrite Nat.add_0_r.
+    unfold one_copy. destruct (hs_started a); [|reflexivity]. destruct (receives d a); [|reflexivity].
+    unfold count_name. simpl. now rewrite N.eqb_refl.
+  - rewrite one_copy_other by assumption. now apply IH.
+Qed.
+
+Lemma deliver_ok (same : list ev -> list ev -> bool) (Hrefl : forall t, same t t = true) ops st d :
+  inv ops st -> obs_ok same ops d (deliver st d) = true.
+Proof.
+  intros [_ _ _ Hf Hn]. unfold obs_ok. apply andb_true_iff. split.
+  - apply forallb_forall. intros p Hp. rewrite deliver_flat in Hp. apply in_flat_map in Hp as (hs & Hin & Hp).
+    unfold one_copy in Hp. destruct (hs_started hs) as [s|] eqn:Es; [|destruct Hp].
+    destruct (receives d hs) eqn:Er; [|destruct Hp]. destruct Hp as [<-|[]]. simpl.
+    pose proof (find_in_nodup _ _ Hn Hin) as F. fold (find_handler (hname hs) st) in F.
+    rewrite Hf in F. unfold expected_for. remember (hname hs) as n eqn:En.
+    destruct (spec_cfg n ops) as [h|]; [|discriminate]. injection F as F'.
+    assert (F1 : hs_cfg hs = h) by now rewrite <- F'.
+    assert (F2 : hs_started hs = spec_started n ops) by now rewrite <- F'.
+    rewrite <- F2, Es. unfold receives in Er. rewrite Es, F1 in Er. rewrite Er, F1.
+    now rewrite dispatch_spec.
+  - apply forallb_forall. intros n _. apply Nat.eqb_eq. rewrite deliver_flat, count_deliver by assumption.
+    fold (find_handler n st). rewrite Hf. unfold expected_for.
+    destruct (spec_cfg n ops) as [h|]; [|reflexivity]. unfold one_copy, receives. simpl.
+    destruct (spec_started n ops) as [s|]; [|reflexivity].
+    now destruct (N.eqb (h_sub h) (d_sub d) && N.eqb (h_subtopic h) (d_topic d)).
+Qed.
+
+Lemma prog_ok_run (same : list ev -> list ev -> bool) (Hrefl : forall t, same t t = true) :
+  forall ops pre, prog_ok same pre ops (run (exec rinit pre) ops) = true.
+Proof.
+  induction ops as [|o ops IH]; intros pre; [reflexivity|].
+  destruct o as [h|id app|hn id app|dd|dd| |d]; cbn [run prog_ok]; try (rewrite <- exec_snoc; apply IH).
+  rewrite (deliver_ok same Hrefl pre _ d (exec_inv pre)). cbn [andb].
+  specialize (IH (pre ++ [ODeliver d])). now rewrite exec_snoc in IH.
+Qed.
+
+Lemma list_eqb_refl {A} (eqb : A -> A -> bool) : (forall x, eqb x x = true) -> forall l, list_eqb eqb l l = true.
+Proof. intros H. induction l as [|x l IH]; simpl; [reflexivity|]. now rewrite H, IH. Qed.
+
+Lemma ctx_eqb_refl c : ctx_eqb c c = true.
+Proof. unfold ctx_eqb. now rewrite !N.eqb_refl. Qed.
+Lemma ev_eqb_refl e : ev_eqb e e = true.
+Proof.
+  destruct e; simpl; rewrite ?N.eqb_refl, ?ctx_eqb_refl; try reflexivity.
+  - apply list_eqb_refl, N.eqb_refl.
+  - apply list_eqb_refl. intros [m c]. unfold omsg_eqb. simpl. now rewrite N.eqb_refl, ctx_eqb_refl.
+  - now destruct ack.
+Qed.
+Lemma oev_eqb_refl e : oev_eqb e e = true.
+Proof. destruct e; simpl; rewrite ?N.eqb_refl; reflexivity. Qed.
+
+Theorem c08_model_accepted ops : c08_monitor ops (run rinit ops) = true.
+Proof.
+  apply (prog_ok_run c08_same) with (pre := []). intros t. apply list_eqb_refl, ev_eqb_refl.
+Qed.
+Theorem c09_model_accepted ops : c09_monitor ops (run rinit ops) = true.
+Proof.
+  apply (prog_ok_run c09_same) with (pre := []). intros t. apply list_eqb_refl, oev_eqb_refl.
+Qed.
